@@ -549,7 +549,7 @@ def cells_C07(tier, consts):
 
 
 PROPS["C06"] = {
-    "level_text": "writers and readers proved against the golden byte grammar of the pinned revision, modularly: header/footer primitives; the array backend's payload (element loops closed by loop contracts, symbolic count); the framing of strided / morton / hilbert (tag, extents, inner image, footer), clamp and backup (tag, raw configuration vectors, inner image, footer), constant, identity, the pass-through layers and field::dump / field(istream&) -- each against an ABSTRACT inner-backend serialiser; per-layer round-trip lemma over the two contracts: what write_binary emits, read_binary accepts, consuming exactly the image and returning the same configuration and inner value; writers are functions of configuration and payload only (re-dump gives the same bytes)",
+    "level_text": "writers and readers proved against the golden byte grammar of the pinned revision, modularly: header/footer primitives; the array backend's payload (element loops closed by loop contracts, symbolic count); the framing of strided / morton / hilbert (tag, extents, inner image, footer), clamp and backup (tag, raw configuration vectors, inner image, footer; thorough tier only, as optional recorded attempts: their solver runs need several GB and are counted only when they finish), constant, identity, the pass-through layers and field::dump / field(istream&) -- each against an ABSTRACT inner-backend serialiser; per-layer round-trip lemma over the two contracts: what write_binary emits, read_binary accepts, consuming exactly the image and returning the same configuration and inner value; writers are functions of configuration and payload only (re-dump gives the same bytes)",
     "level_note": "the stack-level statement is the structural induction over layers (meta-level, unchecked; the inner backend's own round trip is the induction hypothesis); the affine layer's serialiser is NOT under contract; constant, covariant_cast and dereference serialisers did not compile when instantiated (D7/D8): repaired by fix: commits and now under contract; std::iostream modelled by the ghost stream; stream limited to 2^40 bytes, array to 2^32 elements",
     "design_ref": "DESIGN.md section 5 (C06/C07/C08)",
     "cells": cells_C06, "consts": True,
